@@ -458,27 +458,33 @@ Lemma req_guards_reduce len c (X : connp * Z) :
   req_guards_pass c len ->
   (if c_in_status c =? c_HTP_STREAM_STOP then (c, c_HTP_STREAM_STOP)
    else if c_in_status c =? c_HTP_STREAM_ERROR then (c, c_HTP_STREAM_ERROR)
-   else if match c_in_tx c with None => negb (req_state_eqb (c_in_state c) REQ_IDLE) | Some _ => false end
+   else if match c_in_tx c with None => negb (req_state_eqb (c_in_state c) REQ_IDLE) && negb (c_in_status c =? c_HTP_STREAM_TUNNEL) | Some _ => false end
    then (c <| c_in_status := c_HTP_STREAM_ERROR |>, c_HTP_STREAM_ERROR)
    else if (len =? 0)%nat && negb (c_in_status c =? c_HTP_STREAM_CLOSED) then (c, c_HTP_STREAM_CLOSED)
    else X) = X.
 Proof.
   intros (H1 & H2 & H3 & H4).
   apply Z.eqb_neq in H1. apply Z.eqb_neq in H2. rewrite H1, H2.
-  assert (E3 : match c_in_tx c with None => negb (req_state_eqb (c_in_state c) REQ_IDLE) | Some _ => false end = false).
+  assert (E3 : match c_in_tx c with None => negb (req_state_eqb (c_in_state c) REQ_IDLE) && negb (c_in_status c =? c_HTP_STREAM_TUNNEL) | Some _ => false end = false).
   { destruct (c_in_tx c); [reflexivity|]. destruct H3 as [H3|H3]; [congruence|]. rewrite H3. reflexivity. }
   rewrite E3. assert (E4 : (len =? 0)%nat = false) by (apply Nat.eqb_neq; lia). rewrite E4. reflexivity.
 Qed.
 
 (* once the request direction is in TUNNEL a data call returns TUNNEL: no callback, no transaction, no state change *)
+(* since the fix of the listed finding http09-then-tunnel-error (the entry guard of htp_connp_req_data lets tunnel mode through) this holds
+   whatever in_tx / in_state are: the premise "c_in_tx c <> None \/ c_in_state c = REQ_IDLE" is gone *)
 Theorem tunnel_absorbing_req data len c :
-  c_in_status c = c_HTP_STREAM_TUNNEL -> (c_in_tx c <> None \/ c_in_state c = REQ_IDLE) -> (0 < len)%nat ->
+  c_in_status c = c_HTP_STREAM_TUNNEL -> (0 < len)%nat ->
   snd (connp_req_data cb g data len c) = c_HTP_STREAM_TUNNEL /\ same_but_cursor_in c (fst (connp_req_data cb g data len c)).
 Proof.
-  intros Ht Hg Hl. unfold connp_req_data.
-  rewrite req_guards_reduce.
-  - cbv zeta. cbn. rewrite Ht. cbn. unfold same_but_cursor_in. cbn. repeat split; reflexivity.
-  - unfold req_guards_pass. rewrite Ht. repeat split; try (intro H; vm_compute in H; discriminate); assumption.
+  intros Ht Hl. unfold connp_req_data.
+  assert (E1 : (c_in_status c =? c_HTP_STREAM_STOP) = false) by (rewrite Ht; reflexivity).
+  assert (E2 : (c_in_status c =? c_HTP_STREAM_ERROR) = false) by (rewrite Ht; reflexivity).
+  assert (E3 : match c_in_tx c with None => negb (req_state_eqb (c_in_state c) REQ_IDLE) && negb (c_in_status c =? c_HTP_STREAM_TUNNEL) | Some _ => false end = false).
+  { rewrite Ht. change (c_HTP_STREAM_TUNNEL =? c_HTP_STREAM_TUNNEL) with true. destruct (c_in_tx c); [reflexivity|apply andb_false_r]. }
+  assert (E4 : (len =? 0)%nat = false) by (apply Nat.eqb_neq; lia).
+  rewrite E1, E2, E3, E4. cbn [andb].
+  cbv zeta. cbn. rewrite Ht. cbn. unfold same_but_cursor_in. cbn. repeat split; reflexivity.
 Qed.
 
 (* after a CONNECT request the request direction consumes nothing until the response line has been seen:
